@@ -308,7 +308,7 @@ Qed.
 Lemma with_xy_id v : with_xy v (v_x v) (v_y v) (v_pend v) = v.
 Proof. destruct v. reflexivity. Qed.
 
-Ltac cy M Og := rewrite clampy_in in M by (first [intros O'; pose proof (Og O'); lia | lia]).
+Ltac cy M Og := rewrite clampy_in in M by (first [intros O'; pose proof (Og O'); flia | flia]).
 
 Lemma Rg_stay t v : Rg t v -> Rg (set_term_cursor t (v_x v) (v_y v)) v.
 Proof.
@@ -442,7 +442,7 @@ Proof.
   - (* a pending wrap is performed first *)
     specialize (r_pendx eq_refl).
     cbn [negb]. rewrite andb_false_r. cbv zeta.
-    replace ((v_w v <=? v_x v + 1) && true) with true by lia.
+    replace ((v_w v <=? v_x v + 1) && true) with true by flia.
     rewrite r_bot, r_h.
     set (v1 := index (with_xy v 0 (v_y v) false)).
     assert (exists t1 y', (do s' <- (if v_y v =? v_bot v then scroll s false else Ok s);
@@ -458,20 +458,20 @@ Proof.
         rewrite scroll_up_xy. split; [|split; [reflexivity|rewrite Fr, Fi, Fp; repeat split; congruence]].
         pose proof (Rg_move t0 (scroll_up v) 0 (v_y v) false G0) as M.
         change (v_w (scroll_up v)) with (v_w v) in M. change (clampy (scroll_up v) (v_y v)) with (clampy v (v_y v)) in M.
-        rewrite !clamp_in in M by lia. cy M Og. exact M.
+        rewrite !clamp_in in M by flia. cy M Og. exact M.
       - cbn [bind]. destruct (v_y v <? v_h v - 1) eqn:C3.
         + eexists _, _. split; [reflexivity|].
           destruct (stc_frame s 0 (v_y v + 1)) as (_ & _ & Fr & Fi & Fp & _).
           split; [|split; [reflexivity|rewrite Fr, Fi, Fp; repeat split; congruence]].
-          pose proof (Rg_move s v 0 (v_y v + 1) false (R0_Rg s v H0)) as M. rewrite !clamp_in in M by lia. cy M Og. exact M.
+          pose proof (Rg_move s v 0 (v_y v + 1) false (R0_Rg s v H0)) as M. rewrite !clamp_in in M by flia. cy M Og. exact M.
         + eexists _, _. split; [reflexivity|].
           destruct (stc_frame s 0 (v_y v)) as (_ & _ & Fr & Fi & Fp & _).
           split; [|split; [reflexivity|rewrite Fr, Fi, Fp; repeat split; congruence]].
-          pose proof (Rg_move s v 0 (v_y v) false (R0_Rg s v H0)) as M. rewrite !clamp_in in M by lia. cy M Og. exact M. }
-    rewrite E1. cbn [bind].
+          pose proof (Rg_move s v 0 (v_y v) false (R0_Rg s v H0)) as M. rewrite !clamp_in in M by flia. cy M Og. exact M. }
+    rewrite E1. cbn [bind]. clear E1.
     assert (v_w v1 = v_w v /\ v_h v1 = v_h v /\ v_x v1 = 0 /\ 0 <= v_y v1 < v_h v) as (W1 & Hh1 & X1 & Y1).
     { pose proof (Rg_bounds t1 v1 H1) as B1. subst v1. unfold index, scroll_up in *. cbn [with_xy v_y v_bot v_h v_x v_w] in *.
-      split_ifs; cbn [v_w v_h v_x v_y with_xy] in *; repeat split; lia. }
+      split_ifs; cbn [v_w v_h v_x v_y with_xy] in *; repeat split ; flia. }
     destruct (push_char_Rg t1 v1 ch 1 y' (v_w v <=? 1) H1) as (t2 & E2 & H2 & Fr2 & Fi2 & Fp2).
     rewrite E2. cbn [bind]. eexists. split; [reflexivity|].
     change (width t2) with (width t2).
@@ -482,35 +482,35 @@ Proof.
     apply Rg_R0.
     + apply Rg_rotten.
       rewrite W1 in H2. rewrite Ey in H2. pose proof (Rg_org t1 v1 H1) as Og1.
-      rewrite (clampy_in v1 (v_y v1)) in H2 by (first [exact Og1 | lia]).
+      rewrite (clampy_in v1 (v_y v1)) in H2 by (first [exact Og1 | flia]).
       unfold clamp in H2.
       destruct (0 =? v_w v - 1) eqn:C4.
-      * replace (v_w v <=? 1) with true in H2 by lia. replace (v_w v - 1) with 0 in H2 by lia. exact H2.
-      * replace (v_w v <=? 1) with false in H2 by lia. replace (1 <? 0) with false in H2 by reflexivity.
+      * replace (v_w v <=? 1) with true in H2 by flia. replace (v_w v - 1) with 0 in H2 by flia. exact H2.
+      * replace (v_w v <=? 1) with false in H2 by flia. replace (1 <? 0) with false in H2 by reflexivity.
         eapply Rg_pend. exact H2.
-    + cbn [rotten with_rotten]. destruct (0 =? v_w v - 1) eqn:C4; cbn [with_xy v_pend]; lia.
+    + cbn [rotten with_rotten]. destruct (0 =? v_w v - 1) eqn:C4; cbn [with_xy v_pend] ; flia.
     + destruct (0 =? v_w v - 1) eqn:C4; cbn [with_xy v_pend v_x v_w]; [|discriminate].
-      intros _. destruct (put_ref_fields v1 ch) as (Q & _). rewrite Q, W1. lia.
+      intros _. destruct (put_ref_fields v1 ch) as (Q & _). rewrite Q, W1. flia.
   - (* no pending wrap *)
     cbn [negb]. rewrite andb_true_r, andb_false_r.
     destruct (v_w v <=? v_x v + 1) eqn:C1.
     + (* last column: the character goes there and the wrap becomes pending *)
-      replace (v_x v =? v_w v - 1) with true by lia.
+      replace (v_x v =? v_w v - 1) with true by flia.
       destruct (push_char_Rg (with_rotten s true) v ch (v_x v) (v_y v) true (Rg_rotten s v true (R0_Rg s v H0)))
         as (t2 & E2 & H2 & Fr2 & Fi2 & Fp2).
       rewrite E2. eexists. split; [reflexivity|].
       split; [|split; [rewrite Fi2; exact He|rewrite Fp2; exact Hp]].
-      rewrite !clamp_in in H2 by lia. cy H2 Og.
+      rewrite !clamp_in in H2 by flia. cy H2 Og.
       apply Rg_R0; [exact H2|rewrite Fr2; reflexivity|].
-      intros _. cbn [with_xy v_x v_w]. destruct (put_ref_fields v ch) as (Q & _). rewrite Q. lia.
-    + replace (v_x v =? v_w v - 1) with false by lia. cbv zeta. cbn [bind].
+      intros _. cbn [with_xy v_x v_w]. destruct (put_ref_fields v ch) as (Q & _). rewrite Q. flia.
+    + replace (v_x v =? v_w v - 1) with false by flia. cbv zeta. cbn [bind].
       destruct (push_char_Rg s v ch (v_x v + 1) (v_y v) false (R0_Rg s v H0)) as (t2 & E2 & H2 & Fr2 & Fi2 & Fp2).
       rewrite E2. cbn [bind]. eexists. split; [reflexivity|].
       split; [|split; [cbn; congruence|cbn; congruence]].
-      rewrite !clamp_in in H2 by lia. cy H2 Og.
+      rewrite !clamp_in in H2 by flia. cy H2 Og.
       assert (width t2 = v_w v) as W2.
       { rewrite (g_w t2 _ H2). cbn [with_xy v_w]. destruct (put_ref_fields v ch) as (Q & _). exact Q. }
-      rewrite W2. replace (v_w v <=? v_x v + 1) with false by lia.
+      rewrite W2. replace (v_w v <=? v_x v + 1) with false by flia.
       apply Rg_R0; [|reflexivity|discriminate].
       apply Rg_rotten. exact H2.
 Qed.
